@@ -14,11 +14,13 @@ def rand_tree(rng, depth=0, maxdepth=4):
     for _ in range(rng.choice([0, 1, 2, 3, 5, 8])):
         kl = rng.choice([0, 1, 3, 8, 40, 255])
         k = ''.join(rng.choice('abcXYZ0189_-é漢字😀 ') for _ in range(kl))
+        if rng.random() < 0.15: k = rng.choice(['\0', ' ', '\t', '\x7f', '\x01', '\0\0']) * rng.choice([0, 1]) + k[:200] + rng.choice(['\0', '\0\0', ' ', '\n', '\r', '\x1f'])
         while len(k.encode()) > 255: k = k[:-1]
         if k in m: continue
         t = rng.random()
         if t < 0.35:
             s = ''.join(rng.choice('abc 0:-TZ.üñ漢😀"\\\n') for _ in range(rng.choice([0, 1, 5, 20, 120])))
+            if rng.random() < 0.2: s = rng.choice(['', '\0', ' ']) + s[:200] + rng.choice(['\0', '\0\0\0', ' ', '\t', '\x7f'])
             while len(s.encode()) > 255: s = s[:-1]
             m[k] = s
         elif t < 0.7:
@@ -47,10 +49,11 @@ def run(ctx):
     rng = random.Random(ctx.seed)
     corr = core.Corr()
     thorough = ctx.tier == 'thorough'
-    corr.rule = ('random metadata trees (0-8 entries per map, keys/strings of 0-255 UTF-8 bytes incl. multi-byte characters, i32 extremes and negatives, empty maps, '
+    corr.rule = ('random metadata trees (0-8 entries per map, keys/strings of 0-255 UTF-8 bytes incl. multi-byte characters, NUL and other control characters and blanks at either end, i32 extremes and negatives, empty maps, '
                  'nesting up to 4 and chains up to the limit 127) embedded in small replays, and replays without metadata; oracle: metadata read = the tree in '
                  'order, write(read) reproduces the file, the tree survives .slpp (JSON copy) and comes back to identical .slp bytes; none stays none')
-    trees = [None, {}, {'a': {}}, nest(127, {'x': 1}), nest(126, {'k': 'v'}), nest(60, {})]
+    trees = [None, {}, {'a': {}}, nest(127, {'x': 1}), nest(126, {'k': 'v'}), nest(60, {}),
+             {'consoleNick': 'Station 1\0\0', 'k\0': 'v', '\0': '\0', 'k': '\0v'}, {'0\0': 1, '0': 2, '0\0\0': 3, ' 0': 4, '0 ': 5}]
     trees += [rand_tree(rng) for _ in range(1500 if thorough else 250)]
     cases = []; sl = []
     for i, t in enumerate(trees):
